@@ -167,6 +167,30 @@ NumCanon(t) ==
                   digits |-> Force([i \in 1..z - a + 1 |-> mant[a + i - 1] - 48]),
                   exp |-> ex - nfrac + (Len(mant) - z)]
 
+\* canonical form of  (-1)^neg * ds * 10^e  for an arbitrary digit sequence ds
+Normalize(neg, ds, e) ==
+    LET NZ == {i \in 1..Len(ds) : ds[i] # 0}
+    IN  IF NZ = {} THEN ZeroCanon
+        ELSE LET a == SetMin(NZ)  z == SetMax(NZ)
+             IN  [neg |-> neg, digits |-> Force([i \in 1..z - a + 1 |-> ds[a + i - 1]]), exp |-> e + (Len(ds) - z)]
+
+\* Rnd6: decimal rounding to 6 places (exact halves to the even neighbour), the precision of Starfile.write
+RoundTo6(c) ==
+    IF c.digits = <<>> \/ c.exp >= -6 THEN c
+    ELSE LET n == Len(c.digits)
+             keep == n - (-6 - c.exp)                       \* digits up to the 6th decimal place (may be <= 0)
+         IN  IF keep < 0 THEN ZeroCanon
+             ELSE LET first == c.digits[keep + 1]
+                      tie == first = 5 /\ keep + 1 = n       \* digits carry no trailing zeros
+                      lastkept == IF keep = 0 THEN 0 ELSE c.digits[keep]
+                      up == first > 5 \/ (first = 5 /\ ~tie) \/ (tie /\ lastkept % 2 = 1)
+                      K == SubSeq(c.digits, 1, keep)
+                      NN == {i \in 1..keep : K[i] # 9}
+                  IN  IF ~up THEN Normalize(c.neg, K, -6)
+                      ELSE IF NN = {} THEN Normalize(c.neg, <<1>> \o [i \in 1..keep |-> 0], -6)
+                      ELSE LET j == SetMax(NN)
+                           IN  Normalize(c.neg, [i \in 1..keep |-> IF i < j THEN K[i] ELSE IF i = j THEN K[i] + 1 ELSE 0], -6)
+
 \* type of column k of a block's rows ("none" for a table without rows)
 ColType(rows, k) == IF Len(rows) = 0 THEN "none"
                     ELSE IF \A r \in 1..Len(rows) : IsNumeric(rows[r][k]) THEN "num" ELSE "text"
@@ -181,6 +205,15 @@ Typed(blocks) ==
              rows |-> Force([r \in 1..Len(blk.rows) |->
                         Force([k \in 1..nc |-> IF ty[k] = "num" THEN [num |-> NumCanon(blk.rows[r][k])]
                                                 ELSE [text |-> blk.rows[r][k]]])])]])
+
+\* the same with every numeric cell rounded to 6 decimals (what a STAR round trip preserves)
+Round6Blocks(tbs) ==
+    Force([b \in 1..Len(tbs) |->
+        [name |-> tbs[b].name, labels |-> tbs[b].labels, types |-> tbs[b].types,
+         rows |-> Force([r \in 1..Len(tbs[b].rows) |->
+                    Force([k \in 1..Len(tbs[b].rows[r]) |->
+                        LET c == tbs[b].rows[r][k]
+                        IN  IF tbs[b].types[k] = "num" /\ "num" \in DOMAIN c THEN [num |-> RoundTo6(c.num)] ELSE c])])]])
 
 -----------------------------------------------------------------------------
 \* rendering a document with a layout (small documents only: the helpers below recurse)
